@@ -9,6 +9,13 @@ Case kinds (JSON-able; matrices are [rows, cols, [rational tokens row major]]):
    "N": null|mat, "Ci": null|mat, "Ci_kind": "array"|"list", "chain": bool}
   {"op": "lqe", "fn": "lqe"|"dlqe", "form", "dt", "A", "G", "C", "QN", "RN", "NN": bool}
   {"op": "fbk", "dt", "A", "B", "Cp", "K", "Ci": null|mat}
+  {"op": "fbks", "dt", "A", "B" (n x mt), "Cp", "labels": null|[mt names], "outs": null|[n names],
+   "ci": null|selector, "si": null|selector (identity forms only), "ctype": "linear"|"nonlinear",
+   "K", "Ci"}      create_statefbk_iosystem(..., control_indices=ci): the controller drives a
+                   selection of the plant inputs, in the order given
+  lqr cases may carry "embed": {"mt", "sel": [plant input of each designed input], "extra": n x (mt-m),
+   "names": bool}: the chain is run on a plant with mt inputs, B_full[:, sel] = B, control_indices=sel
+selector = ["I", k] | ["N", name] | ["S", a, b, c] | ["L", [["I", k] | ["N", name], ...]] | ["X", kind]
 """
 import re
 from fractions import Fraction
@@ -143,6 +150,79 @@ def dt_value(tokn):
     return float(Fraction(tokn[1:]))
 
 
+IN_POOL = ["b", "a", "thr", "F", "tau", "c", "u1", "v", "w2", "ail"]
+OUT_POOL = ["pos", "vel", "acc", "th", "om", "h", "p1", "q2"]
+X_KINDS = {"float": lambda: 1.0, "npint": lambda: np.int64(1), "ndarray": lambda: np.array([1, 0]),
+           "tuple": lambda: (1, 0)}
+
+
+def sel_obj(sel):
+    """the Python object a selector stands for"""
+    if sel is None:
+        return None
+    k = sel[0]
+    if k in ("I", "N"):
+        return sel[1]
+    if k == "S":
+        return slice(sel[1], sel[2], sel[3])
+    if k == "L":
+        return [it[1] for it in sel[1]]
+    if k == "X":
+        return X_KINDS[sel[1]]()
+    raise ValueError(k)
+
+
+def sel_tokens(sel):
+    if sel is None:
+        return "0"
+    k = sel[0]
+    if k == "I":
+        return "1 I %d" % sel[1]
+    if k == "N":
+        return "1 N s:" + sel[1]
+    if k == "S":
+        return "1 S " + " ".join("_" if v is None else str(v) for v in sel[1:4])
+    if k == "L":
+        return "1 L %d" % len(sel[1]) + "".join(
+            " I %d" % it[1] if it[0] == "I" else " N s:" + it[1] for it in sel[1])
+    if k == "X":
+        return "1 X"
+    raise ValueError(k)
+
+
+def sel_count(sel, labels):
+    """number of entries a selector denotes for an axis with these labels (generator only: used to
+    give the gain the matching number of rows); None where the selector itself is rejected"""
+    n = len(labels)
+    if sel is None:
+        return n
+    k = sel[0]
+    if k == "I":
+        return sel[1] if sel[1] > 0 else len(list(range(n))[sel[1]:])
+    if k == "S":
+        if sel[3] == 0:
+            return None
+        return len(list(range(n))[slice(sel[1], sel[2], sel[3])])
+    if k == "L":
+        if len(sel[1]) > n or any(it[0] == "N" and it[1] not in labels for it in sel[1]):
+            return None
+        return len(sel[1])
+    return None
+
+
+def sel_class(sel):
+    """coarse class of a selector for features / histogram"""
+    if sel is None:
+        return "none"
+    k = sel[0]
+    if k == "L":
+        kinds = {it[0] for it in sel[1]}
+        neg = any(it[0] == "I" and it[1] < 0 for it in sel[1])
+        return "list-" + ("empty" if not kinds else "mixed" if len(kinds) > 1 else
+                          "names" if kinds == {"N"} else "negint" if neg else "int")
+    return {"I": "int", "N": "name", "S": "slice", "X": "other"}[k]
+
+
 def classify_exc(e):
     msg = str(e)
     if isinstance(e, ct.exception.ControlDimension):
@@ -153,7 +233,13 @@ def classify_exc(e):
         return "notImplemented"
     if isinstance(e, np.linalg.LinAlgError):
         return "shape" if "square" in msg else "illPosed"
+    if isinstance(e, IndexError):
+        return "indexRange"
     if isinstance(e, ValueError):
+        if "is not in list" in msg:
+            return "unknownName"
+        if "_indices" in msg or "signal index" in msg:
+            return "badArg"
         if "reachable" in msg:
             return "illPosed"
         if "poles" in msg or "eigenvalue" in msg:
@@ -248,8 +334,14 @@ class C11(Family):
     rule = ("reachable integer pairs (A,B) of order 1..4(5) with requested real/complex-conjugate poles "
             "for place_acker/place; lqr/dlqr/lqe/dlqe in both call forms and all timebase kinds with "
             "cross weight and integral action; create_statefbk_iosystem with integer gains in both "
-            "timebases with/without integral action; a case is non-trivial when the order is >= 2 or a "
-            "non-default option (cross weight, integral action, horizon, complex poles) is used")
+            "timebases with/without integral action; the same with control_indices in every accepted "
+            "form (int of either sign, slice, list of ints / negative ints / input names in any order, "
+            "mostly not increasing) on plants with 1..4 named or default-named inputs of which the "
+            "controller drives a selection, linear and (continuous time) nonlinear controller type, and "
+            "the rejected selectors; lqr/dlqr designs for B[:, sel] closed on the full plant with "
+            "control_indices = sel; a case is non-trivial when the order is >= 2 or a "
+            "non-default option (cross weight, integral action, horizon, complex poles, a selection other "
+            "than all inputs in order) is used")
 
     # ---- generation ------------------------------------------------------------------------
     def rmat(self, rng, r, c, lo=-3, hi=3, sparse=0.0):
@@ -477,6 +569,117 @@ class C11(Family):
             case["Ci"] = M(self.rmat(rng, q, n + 1, -2, 2))
         return case
 
+    def gen_selector(self, rng, labels):
+        """a `control_indices` value for a plant with these input labels: every accepted form
+        (None, int of either sign, slice, list of ints / negative ints / names / both, in any
+        order) and the rejected ones (repeated or non-existent input, list too long, unknown
+        name, zero step, objects that are no selector)"""
+        mt = len(labels)
+        r = rng.random()
+        if r < 0.08:
+            return None
+        if r < 0.16:
+            return ["I", rng.randint(-mt - 1, mt + 1)]
+        if r < 0.28:
+            ends = [None, None] + list(range(-mt - 1, mt + 2))
+            return ["S", rng.choice(ends), rng.choice(ends),
+                    rng.choice([None, None, 1, -1, -1, 2, -2, 0] if rng.random() < 0.15 else
+                               [None, None, 1, -1, -1, 2, -2])]
+        if r < 0.88:
+            k = rng.choice(list(range(1, mt + 1)) + list(range(2, mt + 1))) if rng.random() < 0.97 else 0
+            idx = rng.sample(range(mt), k)
+            if k >= 2 and idx == sorted(idx) and rng.random() < 0.85:
+                idx = idx[::-1] if rng.random() < 0.5 else idx[1:] + idx[:1]
+            style = rng.choice(["int", "int", "int", "names", "mixed", "neg"])
+            items = []
+            for i in idx:
+                if style == "names" or (style == "mixed" and rng.random() < 0.5):
+                    items.append(["N", labels[i]])
+                elif style == "neg" and rng.random() < 0.6:
+                    items.append(["I", i - mt])
+                else:
+                    items.append(["I", i])
+            return ["L", items]
+        # rejected selectors
+        kind = rng.choice(["dup", "dup", "dup", "range", "range", "long", "name", "bare", "X"])
+        if kind == "dup":
+            i = rng.randrange(mt)
+            items = [["I", i], rng.choice([["I", i], ["I", i - mt], ["N", labels[i]]])]
+            if mt > 2 and rng.random() < 0.5:
+                items.insert(rng.randint(0, 2), ["I", (i + 1) % mt])
+            return ["L", items]
+        if kind == "range":
+            items = [["I", i] for i in rng.sample(range(mt), rng.randint(0, mt - 1))]
+            items.insert(rng.randint(0, len(items)), ["I", rng.choice([mt, mt + 1, -mt - 1, -mt - 2])])
+            return ["L", items]
+        if kind == "long":
+            return ["L", [["I", i % mt] for i in range(mt + 1)]]
+        if kind == "name":
+            return ["L", [["N", "zz"]] + [["I", 0]] * rng.randint(0, min(1, mt - 1))]
+        if kind == "bare":
+            return ["N", labels[0]]
+        return ["X", rng.choice(sorted(X_KINDS))]
+
+    def gen_fbks(self, rng, tier):
+        n = rng.choice([1, 2, 2, 3] if tier == "quick" else [1, 2, 3, 3, 4])
+        mt = rng.choice([1, 2, 2, 3, 3, 4])
+        dt = rng.choice(["C", "C", "T", DT01, "N", "D1/4"])
+        A = self.rmat(rng, n, n)
+        B = self.rmat(rng, n, mt, -2, 2)
+        Cp = [[int(i == j) for j in range(n)] for i in range(n)]
+        if rng.random() < 0.1:
+            Cp = self.rmat(rng, n, n, -2, 2)
+        labels = rng.sample(IN_POOL, mt) if rng.random() < 0.5 else None
+        outs = rng.sample(OUT_POOL, n) if rng.random() < 0.3 else None
+        lab = labels or ["u[%d]" % i for i in range(mt)]
+        ci = self.gen_selector(rng, lab)
+        m = sel_count(ci, lab)
+        if m is None or m > 6:
+            m = rng.randint(1, mt)
+        elif ci is not None and ci[0] == "L" and rng.random() < 0.5:
+            # a list that names an input twice: also with one gain row per *distinct* input
+            norm = {(it[1] % mt if -mt <= it[1] < mt else it[1]) if it[0] == "I" else lab.index(it[1])
+                    for it in ci[1]}
+            if len(norm) < len(ci[1]):
+                m = max(1, len(norm))
+        q = 0
+        Ci = None
+        if rng.random() < 0.5:
+            q = rng.choice([1, 1, 2])
+            Ci = self.rmat(rng, q, n, -2, 2)
+        Kg = self.rmat(rng, m, n + q, -4, 4)
+        if rng.random() < 0.15:
+            Kg = [[Fraction(x, 2) for x in row] for row in Kg]
+        ctype = "nonlinear" if dt == "C" and rng.random() < 0.3 else "linear"
+        si = None
+        if rng.random() < 0.15:
+            # forms of state_indices that denote "all states, in order"
+            si = rng.choice([["I", n], ["L", [["I", i] for i in range(n)]], ["S", None, None, None],
+                             ["L", [["N", "x[%d]" % i] for i in range(n)]], ["I", -n]])
+        case = {"op": "fbks", "dt": dt, "A": M(A), "B": Mrc(n, mt, [x for r_ in B for x in r_]),
+                "Cp": M(Cp), "labels": labels, "outs": outs, "ci": ci, "si": si, "ctype": ctype,
+                "K": Mrc(m, n + q, [x for r_ in Kg for x in r_]), "Ci": None if Ci is None else M(Ci)}
+        r = rng.random()
+        if r < 0.04:
+            case["K"] = M(self.rmat(rng, m + 1, n + q, -4, 4))
+        elif r < 0.06:
+            case["K"] = M(self.rmat(rng, max(m, 1), n + q + 1, -4, 4))
+        elif r < 0.08 and Ci is not None:
+            case["Ci"] = M(self.rmat(rng, q, n + 1, -2, 2))
+        return case
+
+    def embed(self, rng, case):
+        """run the chain of an lqr case on a plant with more inputs than the design used, and/or
+        with the designed inputs listed in another order: B_full[:, sel] = B"""
+        n, m = case["A"][0], case["B"][1]
+        mt = m + rng.choice([0, 0, 1, 2])
+        sel = rng.sample(range(mt), m)
+        if m >= 2 and sel == sorted(sel) and rng.random() < 0.8:
+            sel = sel[::-1]
+        extra = self.rmat(rng, n, mt - m, -2, 2)
+        case["embed"] = {"mt": mt, "sel": sel, "names": rng.random() < 0.3,
+                         "extra": Mrc(n, mt - m, [x for r_ in extra for x in r_])}
+
     def generate(self, rng, tier):
         n = 800 if tier == "quick" else 6000
         out = []
@@ -492,6 +695,12 @@ class C11(Family):
                 out.append(self.gen_lqe(rng, tier))
             else:
                 out.append(self.gen_fbk(rng, tier))
+        # selector streams (control_indices): drawn after the streams above
+        for c in out:
+            if c["op"] == "lqr" and c.get("chain") and rng.random() < 0.5:
+                self.embed(rng, c)
+        for _ in range(n // 4):
+            out.append(self.gen_fbks(rng, tier))
         return out
 
     def corpus(self):
@@ -512,6 +721,18 @@ class C11(Family):
              "Ci_kind": "array", "chain": True},
             {"op": "fbk", "dt": "T", "A": A2, "B": b2, "Cp": M([[1, 0], [0, 1]]), "K": M([[1, 2, 3]]),
              "Ci": M([[1, 0]])},
+            # control_indices in decreasing order: row 0 of K drives input 1
+            {"op": "fbks", "dt": "C", "A": A2, "B": M([[1, 0], [0, 1]]), "Cp": M([[1, 0], [0, 1]]),
+             "labels": None, "outs": None, "ci": ["L", [["I", 1], ["I", 0]]], "si": None,
+             "ctype": "linear", "K": M([[1, 2], [3, 4]]), "Ci": None},
+            {"op": "fbks", "dt": "T", "A": A2, "B": M([[1, 0, 2], [0, 1, -1]]), "Cp": M([[1, 0], [0, 1]]),
+             "labels": ["b", "a", "thr"], "outs": None, "ci": ["L", [["N", "thr"], ["I", -3]]], "si": None,
+             "ctype": "linear", "K": M([[1, 2, 5], [3, 4, 6]]), "Ci": M([[1, 0]])},
+            # design for B[:, [1, 0]] with unequal input weights, closed loop on the full plant
+            {"op": "lqr", "fn": "lqr", "form": "sys", "dt": "C", "A": M([[0, 1, 0], [0, 0, 1], [1, -2, 1]]),
+             "B": M([[1, 0], [0, 1], [2, 1]]), "Q": M([[1, 0, 0], [0, 2, 0], [0, 0, 3]]),
+             "R": M([[1, 0], [0, 25]]), "N": None, "Ci": None, "Ci_kind": "array", "chain": True,
+             "embed": {"mt": 2, "sel": [1, 0], "names": False, "extra": Mrc(3, 0, [])}},
         ]
 
     # ---- driver line -------------------------------------------------------------------------
@@ -538,7 +759,17 @@ class C11(Family):
             return "sf fbk %s %d %d %s %s %s %s %s" % (
                 c["dt"], A[0], B[1], " ".join(A[2]), " ".join(B[2]), " ".join(c["Cp"][2]), mline(c["K"]),
                 optline(c["Ci"]))
+        if op == "fbks":
+            A, B = c["A"], c["B"]
+            return "sf fbks %s %d %d %s %s %s %s %s %s %s" % (
+                c["dt"], A[0], B[1], " ".join(A[2]), " ".join(B[2]), " ".join(c["Cp"][2]),
+                " ".join("s:" + x for x in self.in_labels(c)), sel_tokens(c["ci"]), mline(c["K"]),
+                optline(c["Ci"]))
         raise ValueError(op)
+
+    @staticmethod
+    def in_labels(c):
+        return c["labels"] or ["u[%d]" % i for i in range(c["B"][1])]
 
     def parse_model(self, c, out):
         if out.startswith("err "):
@@ -567,6 +798,14 @@ class C11(Family):
             return {"ok": o}
         if op == "fbk":
             o = {"q": tk.nat()}
+            for nm in ("cA", "cB", "cC", "cD", "A", "B", "C", "D"):
+                o[nm] = rd_mat(tk)
+            return {"ok": o}
+        if op == "fbks":
+            o = {"q": tk.nat()}
+            m, r = tk.nat(), tk.nat()
+            o["sel"] = [tk.nat() for _ in range(m)]
+            o["rest"] = [tk.nat() for _ in range(r)]
             for nm in ("cA", "cB", "cC", "cD", "A", "B", "C", "D"):
                 o[nm] = rd_mat(tk)
             return {"ok": o}
@@ -652,7 +891,18 @@ class C11(Family):
                 kw2 = {}
                 if c["Ci"] is not None:
                     kw2["integral_action"] = mnp(c["Ci"])
-                ctrl, clsys = ct.create_statefbk_iosystem(sys, np.asarray(K), **kw2)
+                plant = sys
+                emb = c.get("embed")
+                if emb:
+                    # the plant has mt inputs, the design used its inputs emb["sel"] in this order
+                    Bf = np.zeros((n, emb["mt"]))
+                    Bf[:, emb["sel"]] = B
+                    free = [j for j in range(emb["mt"]) if j not in emb["sel"]]
+                    Bf[:, free] = mnp(emb["extra"])
+                    plant = self.build_sys(A, Bf, np.eye(n), c["dt"])
+                    kw2["control_indices"] = [plant.input_labels[j] for j in emb["sel"]] \
+                        if emb["names"] else list(emb["sel"])
+                ctrl, clsys = ct.create_statefbk_iosystem(plant, np.asarray(K), **kw2)
                 o["clA"] = np_enc(clsys.A)
                 o["cl_dt"] = exact.dt_canon(clsys.dt)
             except Exception as e:  # noqa
@@ -718,6 +968,46 @@ class C11(Family):
             o[nm] = exmat_enc(mat, *shapes[nm])
         return {"ok": o}
 
+    def impl_fbks(self, c):
+        A, B, Cp, Kg = mnp(c["A"]), mnp(c["B"]), mnp(c["Cp"]), mnp(c["K"])
+        n, mt = A.shape[0], B.shape[1]
+        names = {"inputs": self.in_labels(c)}
+        if c["outs"]:
+            names["outputs"] = list(c["outs"])
+        sys = ct.ss(A, B, Cp, np.zeros((n, mt)), dt_value(c["dt"]), **names)
+        kw = {}
+        if c["Ci"] is not None:
+            kw["integral_action"] = mnp(c["Ci"])
+        if c["ci"] is not None:
+            kw["control_indices"] = sel_obj(c["ci"])
+        if c["si"] is not None:
+            kw["state_indices"] = sel_obj(c["si"])
+        if c["ctype"] != "linear":
+            kw["controller_type"] = c["ctype"]
+        import warnings as _w
+        with _w.catch_warnings():
+            _w.simplefilter("ignore")
+            ctrl, clsys = ct.create_statefbk_iosystem(sys, Kg, **kw)
+            lin_c, lin_cl = ctrl, clsys
+            if c["ctype"] != "linear":
+                # same law as a nonlinear I/O system: compared through its linearisation at the origin
+                lin_c = ctrl.linearize(np.zeros(ctrl.nstates), np.zeros(ctrl.ninputs))
+                lin_cl = clsys.linearize(np.zeros(clsys.nstates), np.zeros(clsys.ninputs))
+        o = {"q": ctrl.nstates, "ctrl_dt": exact.dt_canon(ctrl.dt), "cl_dt": exact.dt_canon(clsys.dt),
+             "cl_type": type(clsys).__name__, "ctrl_type": type(ctrl).__name__,
+             "ctrl_in": list(ctrl.input_labels), "ctrl_out": list(ctrl.output_labels),
+             "cl_in": list(clsys.input_labels), "cl_out": list(clsys.output_labels)}
+        q, m = ctrl.nstates, ctrl.noutputs
+        shapes = {"cA": (q, q), "cB": (q, ctrl.ninputs), "cC": (m, q), "cD": (m, ctrl.ninputs)}
+        for nm, mat in (("cA", lin_c.A), ("cB", lin_c.B), ("cC", lin_c.C), ("cD", lin_c.D)):
+            o[nm] = exmat_enc(mat, *shapes[nm])
+        N = clsys.nstates
+        shapes = {"A": (N, N), "B": (N, clsys.ninputs), "C": (clsys.noutputs, N),
+                  "D": (clsys.noutputs, clsys.ninputs)}
+        for nm, mat in (("A", lin_cl.A), ("B", lin_cl.B), ("C", lin_cl.C), ("D", lin_cl.D)):
+            o[nm] = exmat_enc(mat, *shapes[nm])
+        return {"ok": o}
+
     # ---- comparison --------------------------------------------------------------------------
     def feat(self, c, kind, impl=None, **kw):
         f = {"op": c["op"], "kind": kind}
@@ -742,8 +1032,9 @@ class C11(Family):
                 return Verdict(AGREE)
             return getattr(self, "returns_" + op, self.returns_default)(c, impl, model)
         if "err" in impl:
+            extra = self.sel_feat(c, model["ok"]) if op == "fbks" else {}
             return Verdict(VIOLATES, "implementation raises %s where the model returns" % impl["exc"],
-                           self.feat(c, "raises", impl))
+                           self.feat(c, "raises", impl, **extra))
         return getattr(self, "cmp_" + op)(c, impl["ok"], model["ok"], impl)
 
     def returns_default(self, c, impl, model):
@@ -866,7 +1157,7 @@ class C11(Family):
             return Verdict(VIOLATES, "closed loop not stable: %s" % E, self.feat(c, "unstable"))
         if "chain_exc" in a:
             return Verdict(VIOLATES, "create_statefbk_iosystem raises %s" % a["chain_exc"],
-                           self.feat(c, "chain-raises"))
+                           self.feat(c, "chain-raises", **self.embed_feat(c)))
         if "clA" in a:
             ref = [1, 1, []]
             ref = [len(Acl), len(Acl), [tok(x) for r in Acl for x in r]]
@@ -874,12 +1165,12 @@ class C11(Family):
             if not mat_close(a["clA"], ref, TOL_CL):
                 return Verdict(VIOLATES, "closed loop A-matrix of create_statefbk_iosystem differs from "
                                "A_aug - B_aug K (max err %.2e)" % maxerr(a["clA"], ref),
-                               self.feat(c, "chain-A", dt=c["dt"]))
+                               self.feat(c, "chain-A", dt=c["dt"], **self.embed_feat(c)))
             ok, err = eig_poly_ok(E, mfr(a["clA"]), 1e-5)
             _rec("chaineig", err)
             if not ok:
                 return Verdict(VIOLATES, "assembled closed loop does not have the returned eigenvalues",
-                               self.feat(c, "chain-eigs", dt=c["dt"]))
+                               self.feat(c, "chain-eigs", dt=c["dt"], **self.embed_feat(c)))
         return Verdict(AGREE)
 
     def cmp_lqr(self, c, a, b, impl):
@@ -928,6 +1219,83 @@ class C11(Family):
                 a["ctrl_dt"], a["cl_dt"], want), self.feat(c, "dt"))
         return Verdict(AGREE)
 
+    @staticmethod
+    def embed_feat(c):
+        emb = c.get("embed")
+        if not emb:
+            return {}
+        sel = emb["sel"]
+        return {"control_indices": ("names-" if emb["names"] else "") +
+                ("in-order" if sel == sorted(sel) else "not-in-order"),
+                "free_inputs": emb["mt"] > len(sel)}
+
+    def sel_feat(self, c, b=None):
+        f = {"dt": c["dt"], "integral": c["Ci"] is not None, "selector": sel_class(c["ci"]),
+             "ctype": c["ctype"]}
+        if b is not None:
+            f["in_order"] = b["sel"] == sorted(b["sel"])
+            f["free_inputs"] = len(b["rest"]) > 0
+        return f
+
+    def cmp_fbks(self, c, a, b, impl):
+        n = c["A"][0]
+        lab = self.in_labels(c)
+        sel, rest = b["sel"], b["rest"]
+        m = len(sel)
+        ft = self.sel_feat(c, b)
+        # the names do not depend on the timebase or on integral action
+        ftn = {k: v for k, v in ft.items() if k not in ("dt", "integral")}
+        if a["q"] != b["q"]:
+            return Verdict(VIOLATES, "controller has %d states, %d integrators requested" % (a["q"], b["q"]),
+                           self.feat(c, "ctrl-states", **ft))
+        # the closed loop inputs are x_d, u_d, then the plant inputs the controller does not drive;
+        # the order in which interconnect appends those is not C11's subject: matched by name
+        want_out = [lab[i] for i in sel]
+        want_in = ["xd[%d]" % i for i in range(n)] + ["ud[%d]" % i for i in range(m)]
+        free = a["cl_in"][n + m:]
+        names_in_ok = a["cl_in"][:n + m] == want_in and sorted(free) == sorted(lab[i] for i in rest)
+        perm = list(range(n + m)) + [n + m + free.index(lab[i]) for i in rest] if names_in_ok else []
+        exact_ctrl = c["ctype"] == "linear"
+        for nm in ("cA", "cB", "cC", "cD"):
+            if (a[nm] != b[nm]) if exact_ctrl else (not mat_close(a[nm], b[nm], TOL_CL)):
+                return Verdict(VIOLATES, "controller %s: implementation %s, model %s" % (nm[1], a[nm], b[nm]),
+                               self.feat(c, "ctrl-" + nm[1], **ft))
+        for nm in ("A", "B", "C", "D"):
+            am = a[nm]
+            if nm in ("B", "D") and perm and am[1] == len(perm):
+                rows = [am[2][i * am[1]:(i + 1) * am[1]] for i in range(am[0])]
+                am = [am[0], am[1], [row[j] for row in rows for j in perm]]
+            if am[:2] == b[nm][:2]:
+                _rec("closed" + nm, maxerr(am, b[nm]))
+            if not mat_close(am, b[nm], TOL_CL):
+                return Verdict(VIOLATES, "closed loop %s (control_indices -> plant inputs %s): implementation "
+                               "%s, model %s (max err %.2e); controller outputs are named %s" % (
+                                   nm, sel, am, b[nm], maxerr(am, b[nm]) if am[:2] == b[nm][:2] else -1,
+                                   a["ctrl_out"]),
+                               self.feat(c, "closed-" + nm, **ft))
+        # the signal names (they carry the wiring; with the matrices above in agreement a difference
+        # here is a difference in naming only)
+        if a["ctrl_out"] != want_out:
+            return Verdict(DIFFERS, "controller outputs %s, control_indices select %s in this order" % (
+                a["ctrl_out"], want_out), self.feat(c, "ctrl-outputs", **ftn))
+        if a["cl_out"][len(a["cl_out"]) - m:] != want_out or len(a["cl_out"]) != n + m:
+            return Verdict(DIFFERS, "closed loop outputs %s, expected the %d plant outputs then %s" % (
+                a["cl_out"], n, want_out), self.feat(c, "closed-outputs", **ftn))
+        if not names_in_ok:
+            return Verdict(DIFFERS, "closed loop inputs %s, expected %s then the free plant inputs %s" % (
+                a["cl_in"], want_in, [lab[i] for i in rest]), self.feat(c, "closed-inputs", **ftn))
+        want = exact.dt_canon(dt_value(c["dt"]))
+        if a["ctrl_dt"] != want or a["cl_dt"] != want:
+            return Verdict(DIFFERS, "timebase of controller/closed loop %s/%s, plant %s" % (
+                a["ctrl_dt"], a["cl_dt"], want), self.feat(c, "dt", **ft))
+        return Verdict(AGREE)
+
+    def returns_fbks(self, c, impl, model):
+        return Verdict(VIOLATES, "create_statefbk_iosystem returned a closed loop for control_indices=%r "
+                       "where the model raises %s" % (sel_obj(c["ci"]) if c["ci"] is None or c["ci"][0] != "X"
+                                                      else c["ci"][1], model["err"]),
+                       self.feat(c, "returns-" + model["err"], **self.sel_feat(c)))
+
     # ---- evidence ------------------------------------------------------------------------------
     def nontrivial(self, c, model):
         if "ok" not in model:
@@ -942,6 +1310,9 @@ class C11(Family):
             return n >= 2 or c["N"] is not None or c["Ci"] is not None
         if op == "lqe":
             return n >= 2 or c["fn"] == "dlqe"
+        if op == "fbks":
+            b = model["ok"]
+            return b["sel"] != list(range(c["B"][1])) or n >= 2 or c["Ci"] is not None
         return n >= 2 or c["Ci"] is not None
 
     def stats(self, c, impl, model):
@@ -965,6 +1336,21 @@ class C11(Family):
             st["cross"] = c["N"] is not None
         if c["op"] == "fbk":
             st["fbk_dt/integral"] = "%s/%s" % (c["dt"], c["Ci"] is not None)
+        if c["op"] == "lqr" and c.get("embed") and "ok" in impl and "clA" in impl["ok"]:
+            st["chain_control_indices"] = "%s/free=%s" % (
+                self.embed_feat(c)["control_indices"], c["embed"]["mt"] > len(c["embed"]["sel"]))
+        if c["op"] == "fbks":
+            st["fbks_dt/integral"] = "%s/%s" % (c["dt"], c["Ci"] is not None)
+            st["selector"] = sel_class(c["ci"])
+            st["ctype"] = c["ctype"]
+            st["named_inputs"] = c["labels"] is not None
+            if c["si"] is not None:
+                st["state_indices_form"] = c["si"][0]
+            if "ok" in model:
+                b = model["ok"]
+                st["selected/inputs"] = "%d/%d" % (len(b["sel"]), c["B"][1])
+                st["selection_order"] = ("single" if len(b["sel"]) < 2 else
+                                         "increasing" if b["sel"] == sorted(b["sel"]) else "not-increasing")
         return st
 
     # ---- shrinking -----------------------------------------------------------------------------
@@ -994,16 +1380,43 @@ class C11(Family):
                 d = dict(c)
                 d["dt"] = "T" if c["dt"].startswith("D") else "C"
                 yield d
-        if op == "fbk":
+        if op in ("fbk", "fbks"):
             if c["dt"] not in ("C", "T"):
                 d = dict(c)
                 d["dt"] = "T" if c["dt"].startswith("D") else "C"
                 yield d
+        if op == "fbks":
+            for key in ("labels", "outs", "si"):
+                if c[key] is not None and not (key == "labels" and c["ci"] is not None and
+                                               "N" in [it[0] for it in (c["ci"][1] if c["ci"][0] == "L" else [])]):
+                    d = dict(c)
+                    d[key] = None
+                    yield d
+            if c["ctype"] != "linear":
+                d = dict(c)
+                d["ctype"] = "linear"
+                yield d
+            if c["Ci"] is not None and c["K"][1] == c["A"][0] + c["Ci"][0]:
+                d = dict(c)
+                Kf = mfr(c["K"])
+                d["K"] = M([row[:c["A"][0]] for row in Kf]) if Kf else c["K"]
+                d["Ci"] = None
+                if Kf:
+                    yield d
+        if op == "lqr" and c.get("embed") and c["embed"]["mt"] > c["B"][1]:
+            # same selection without the free inputs
+            d = dict(c)
+            sel = c["embed"]["sel"]
+            rank = {j: k for k, j in enumerate(sorted(sel))}
+            d["embed"] = {"mt": len(sel), "sel": [rank[j] for j in sel], "names": c["embed"]["names"],
+                          "extra": Mrc(c["A"][0], 0, [])}
+            yield d
 
     def search(self, rng, c, tier):
         gen = {"ctrb": lambda: self.gen_gram(rng), "obsv": lambda: self.gen_gram(rng),
                "acker": lambda: self.gen_acker(rng, "quick"), "lqr": lambda: self.gen_lqr(rng, "quick"),
-               "lqe": lambda: self.gen_lqe(rng, "quick"), "fbk": lambda: self.gen_fbk(rng, "quick")}[c["op"]]
+               "lqe": lambda: self.gen_lqe(rng, "quick"), "fbk": lambda: self.gen_fbk(rng, "quick"),
+               "fbks": lambda: self.gen_fbks(rng, "quick")}[c["op"]]
         return [gen() for _ in range(200)]
 
 
